@@ -621,13 +621,29 @@ func (s *State) Verify(ctx context.Context) error {
 			reachedDelegations[delegatedRoleName] = false
 		}
 
-		delegationsQueue := targetsMetadata.GetRules()
-		delegationKeys := targetsMetadata.GetPrincipals()
+		// Each rule is queued with the principals it may name: those defined in
+		// its own rule file and, where the file doesn't redefine them, those of
+		// the files that delegated to it. The principals declared in a
+		// delegated file must never change who a rule in another file trusts.
+		type scopedRule struct {
+			rule       tuf.Rule
+			principals map[string]tuf.Principal
+		}
+		scopeRules := func(rules []tuf.Rule, principals map[string]tuf.Principal) []scopedRule {
+			scopedRules := make([]scopedRule, 0, len(rules))
+			for _, rule := range rules {
+				scopedRules = append(scopedRules, scopedRule{rule: rule, principals: principals})
+			}
+			return scopedRules
+		}
+
+		delegationsQueue := scopeRules(targetsMetadata.GetRules(), targetsMetadata.GetPrincipals())
 		for len(delegationsQueue) > 1 {
 			// Exit condition: The last entry in the queue is always the allow
 			// rule, which we don't process during DFS
 
-			delegation := delegationsQueue[0]
+			delegation := delegationsQueue[0].rule
+			delegationKeys := delegationsQueue[0].principals
 			delegationsQueue = delegationsQueue[1:]
 
 			if s.HasTargetsRole(delegation.ID()) {
@@ -656,10 +672,14 @@ func (s *State) Verify(ctx context.Context) error {
 					return err
 				}
 
-				delegationsQueue = append(delegatedMetadata.GetRules(), delegationsQueue...)
-				for keyID, key := range delegatedMetadata.GetPrincipals() {
-					delegationKeys[keyID] = key
+				delegatedKeys := make(map[string]tuf.Principal, len(delegationKeys))
+				for keyID, key := range delegationKeys {
+					delegatedKeys[keyID] = key
 				}
+				for keyID, key := range delegatedMetadata.GetPrincipals() {
+					delegatedKeys[keyID] = key
+				}
+				delegationsQueue = append(scopeRules(delegatedMetadata.GetRules(), delegatedKeys), delegationsQueue...)
 			}
 		}
 
